@@ -141,6 +141,7 @@ class DequeProxy:
 
     def __init__(self, sched, real, log=None):
         self.sched, self.real, self.log = sched, real, log if log is not None else []
+        self.batch = None           # a list while additions are being collected (see collect / flush)
 
     def __bool__(self):
         self.sched.yield_point()
@@ -156,11 +157,28 @@ class DequeProxy:
         return m
 
     def append(self, x):
+        if self.batch is not None:
+            self.batch.append(x)
+            return
         self.sched.yield_point()
         self.real.append(x)
 
     def extend(self, it):
         items = list(it)
+        if self.batch is not None:
+            self.batch.extend(items)
+            return
+        self.sched.yield_point()
+        self.real.extend(items)
+
+    # A port that fills its own deque from inside _receive (MultiPort) does so under its lock, where nobody else can see the deque:
+    # whether it adds what it collected with one extend() or with an append() per message is not observable.  The harness brackets such
+    # a _receive with collect() / flush(): the additions become ONE access (one yield point) at the end, whichever way they were made.
+    def collect(self):
+        self.batch = []
+
+    def flush(self):
+        items, self.batch = self.batch or [], None
         self.sched.yield_point()
         self.real.extend(items)
 
